@@ -418,7 +418,10 @@ class Molecules:
         all_quat = np.concatenate(quat, axis=0)
         if concat_features:
             how = "diagonal" if nullable else "vertical"
-            all_features = pl.concat(features, how=how)
+            # empty tables may carry untyped (Null) feature columns, which cannot be
+            # stacked with typed ones; they do not contribute any row anyway.
+            non_empty = [df for df in features if len(df) > 0]
+            all_features = pl.concat(non_empty or features[:1], how=how)
         else:
             all_features = None
 
